@@ -308,6 +308,8 @@ namespace sqf::runtime
     private:
         runtime_conf m_configuration;
         std::chrono::system_clock::time_point m_runtime_timestamp;
+        // Start of the current run (first action on an empty runtime); max_runtime is measured from here.
+        std::chrono::system_clock::time_point m_run_timestamp;
         bool m_runtime_error;
 
         std::chrono::system_clock::time_point m_created_timestamp;
@@ -333,6 +335,7 @@ namespace sqf::runtime
             m_evaluate_halt(false),
             m_configuration(config),
             m_runtime_timestamp(std::chrono::system_clock::now()),
+            m_run_timestamp(m_runtime_timestamp),
             m_runtime_error(false),
             m_created_timestamp(m_runtime_timestamp),
             m_confighost(),
@@ -345,8 +348,22 @@ namespace sqf::runtime
 
 
         sqf::runtime::runtime::result execute(sqf::runtime::runtime::action action);
+    private:
+        // A run starts with the first executing action on an empty runtime:
+        // nothing of an earlier run (error state, elapsed time) may carry over.
+        void begin_run_if_empty()
+        {
+            if (m_state == state::empty)
+            {
+                m_run_timestamp = std::chrono::system_clock::now();
+                m_runtime_error = false;
+                log_messages.clear();
+            }
+        }
+    public:
         sqf::runtime::runtime::runtime_conf& configuration() { return m_configuration; }
         std::chrono::system_clock::time_point runtime_timestamp() { return m_runtime_timestamp; }
+        std::chrono::system_clock::time_point run_timestamp() { return m_run_timestamp; }
         void runtime_timestamp_reset() { m_runtime_timestamp = std::chrono::system_clock::now(); }
 
         sqf::runtime::confighost& confighost() { return m_confighost; }
